@@ -319,6 +319,9 @@ type PipeSim struct {
 	prevID      string
 	forcePath   bool
 	loadingLeft int
+	// busyLeft > 0: the target answers the next busyLeft replayed business commands with -BUSY (a script of another
+	// client runs past its time limit): fault target_busy of the crash harness
+	busyLeft    int
 	loadingSkip int // requests served before the refusals begin (the load - or a blocking script - ends or begins in the middle of the start)
 }
 
@@ -327,6 +330,7 @@ var okLoading = map[string]bool{"auth": true, "hello": true, "info": true, "sele
 	"client": true, "command": true, "config": true, "script": true}
 
 const loadingReply = "LOADING Redis is loading the dataset in memory"
+const busyReply = "BUSY Redis is busy running a script. You can only call SCRIPT KILL or SHUTDOWN NOSAVE."
 
 func NewPipeSim(r *Run, prop string, cfg PipeCfg, st *Stream) *PipeSim {
 	ps := &PipeSim{r: r, cfg: cfg, st: st, prop: prop}
@@ -334,6 +338,17 @@ func NewPipeSim(r *Run, prop string, cfg PipeCfg, st *Stream) *PipeSim {
 	ps.srv.Lenient = true
 	r.Net.Listen(simTargetAddr, ps.srv)
 	ps.srv.Intercept = func(ss *simredis.Session, name string, args [][]byte) *resp.Value {
+		if ps.busyLeft > 0 && !okLoading[name] && name != "ping" && len(args) > 0 && !simredis.IsReservedKey(args[0]) {
+			ps.busyLeft--
+			if ss.InMulti {
+				ss.QueueErr = true
+			}
+			if ps.inc != nil {
+				ps.inc.refused = true
+			}
+			v := resp.Err(busyReply)
+			return &v
+		}
 		if ps.loadingLeft <= 0 || okLoading[name] {
 			return nil
 		}
@@ -479,7 +494,7 @@ func (ps *PipeSim) startIncarnation() {
 func (ps *PipeSim) absorb() {
 	for ; ps.logPos < len(ps.srv.Log); ps.logPos++ {
 		e := ps.srv.Log[ps.logPos]
-		if e.IsErr && e.Reply == loadingReply {
+		if e.IsErr && (e.Reply == loadingReply || e.Reply == busyReply) {
 			continue // injected: the target is loading
 		}
 		if e.IsErr {
